@@ -501,7 +501,10 @@ func (sp *Stepper) pseudo(c Cmd) bool {
 func (sp *Stepper) step(c Cmd, tag string) *Obs {
 	c = complete(c)
 	rawPre := sp.St.readLog()
-	_ = parseLog(rawPre, sp.IDs, true) // learn the ids of a store that was not built through this stepper
+	// learn the ids (and the pruned ids) of a store that was not built through this stepper
+	for _, id := range tombstoned(parseLog(rawPre, sp.IDs, true)) {
+		sp.Gone[id] = true
+	}
 	var pre Observation
 	if sp.last != nil {
 		pre = *sp.last
